@@ -86,6 +86,17 @@ def run_task(task):
                     if g != exp:
                         raise Violation("holds_under_optimized_interpreter", {"kind": "opt", "job": job, "flag": flag}, exp, g)
                 res.extra["optimized_interpreter_calls"] = res.extra.get("optimized_interpreter_calls", 0) + len(jobs)
+            # first use from several threads at once, in fresh interpreters: results are the same pure function
+            for rnd in range(task.get("rounds", 6)):
+                sub = jobs[rnd::6][:400]
+                got = optrun.run(sub, "-B", threads=8)
+                for job, g in zip(sub, got):
+                    exp = refcodec.ref_encode(job["arg"]).hex() if job["fn"] == "encode_number" \
+                        else refcodec.ref_decode(bytes.fromhex(job["arg"]))
+                    if g != exp:
+                        raise Violation("independent_of_concurrent_first_use",
+                                        {"kind": "first_use", "jobs": sub, "threads": 8, "failing_job": job}, exp, g)
+                res.extra["concurrent_first_use_calls"] = res.extra.get("concurrent_first_use_calls", 0) + len(sub)
             return res
         if kind == "enc3":          # d2 range, d3 = 0
             res.shards_total = 1
@@ -279,6 +290,15 @@ def replay(case):
                 buf[:] = refcodec.ref_encode(m)
                 if dec_f(buf) != m or dec_f(memoryview(buf)) != m:
                     raise Violation("decode_independent_of_call_history", case, m, dec_f(buf))
+        return
+    if case["kind"] == "first_use":
+        from vlib import optrun
+        for _ in range(5):      # the schedule is the operating system's: the saved jobs are re-issued a few times
+            got = optrun.run(case["jobs"], "-B", threads=case["threads"])
+            for job, g in zip(case["jobs"], got):
+                exp = refcodec.ref_encode(job["arg"]).hex() if job["fn"] == "encode_number" else refcodec.ref_decode(bytes.fromhex(job["arg"]))
+                if g != exp:
+                    raise Violation("independent_of_concurrent_first_use", case, exp, g)
         return
     if case["kind"] == "opt":
         from vlib import optrun
